@@ -107,8 +107,13 @@ def c04(tier, replay):
             R.replay_walk(run, "C04", replay)
         return run.finish()
     n = 120 if tier == "quick" else 2000
-    totals, _ = R.rules_trace(run, "C04", ["--playouts", n, "--plies", 40, "--text", 1, "--pos", 1, "--repeat-bias", 0.2], "playout")
+    totals, summ = R.rules_trace(run, "C04", ["--playouts", n, "--plies", 40, "--text", 1, "--pos", 1, "--repeat-bias", 0.2,
+                                              "--family", 120 if tier == "quick" else 3000], "playout")
     R.need(totals, ["gen", "castle", "ep", "promo", "pos"])
+    # (--family: chains through the engine's own successor objects of the seeded castling / en-passant / promotion families -
+    # a promotion answered at once by castling, by an en-passant capture, by a double step: every successor's printed text
+    # replayed through the text applier must reproduce that successor, also when the parent object was itself a promotion)
+    run.cov["family_chain_events"] = summ.get("family_events", 0)
     # the position command inside the real command loop (instrumented binary): board after every position command
     import checks_uci
     checks_uci.position_dumps(run, "C04", tier)
